@@ -200,7 +200,7 @@ def extra(tier, seed):
     from vlib import fullcheck
 
     out = {"failures": [], "evaluations": 0, "nontrivial": [], "labels": {}, "samples": [], "coverage": {}}
-    files = sorted(glob.glob("/repo/tests/odefiles/*.ode"))
+    files = sorted(glob.glob(B.REPO + "/tests/odefiles/*.ode"))
     if tier == "quick":
         files = [f for f in files if os.path.getsize(f) < 12000]
     used = []
